@@ -263,7 +263,7 @@ def prop_special(did, k):
                            props=([P("tag", "s", "low", 0), P("n", "i", "3", 0, "3")] if i == 3 else
                                   [P("mark", "b", [1], 0, "true"), P("n", "i", "259", 0, "259")] if i == 259 else []))
                    for i in range(300)])
-    E = enum(did, shapes[k % len(shapes)])
+    E = enum(did, shapes[(k if k < 2 else k - 1) % len(shapes)])
     if k == 2:
         E = enum(did, [variant("Room", props=[P("Room", "s", "201", 0), P("room", "i", "7", 0, "7")], aci=1), variant("Plain", props=[P("Key", "s", "true", 0)])], aci=True)
     return E
